@@ -78,14 +78,15 @@ def expand(spec):
         if dt == 'I':
             vmax = min(int(vmax), 2 ** spec['widths'][j])
             kind = spec.get('col_kind', ['uniform'] * D)[j] if spec.get('col_kind') else 'uniform'
+            vmin = min(int(spec.get('vmin', 0)), vmax - 1)
             if kind == 'small':           # heavy ties
-                c = rng.integers(0, min(vmax, 7), size=N)
+                c = rng.integers(vmin, max(vmin + 1, min(vmax, 7)), size=N)
             elif kind == 'const':
-                c = np.full(N, int(rng.integers(0, vmax)))
+                c = np.full(N, int(rng.integers(vmin, vmax)))
             elif kind == 'ramp':
-                c = np.sort(rng.integers(0, vmax, size=N))
+                c = np.sort(rng.integers(vmin, vmax, size=N))
             else:
-                c = rng.integers(0, vmax, size=N)
+                c = rng.integers(vmin, vmax, size=N)
             cols.append([int(x) for x in c])
         else:
             c = np.exp(rng.normal(np.log(max(vmax, 2.0)) / 2.0, 1.0, size=N))
